@@ -648,6 +648,14 @@ int32 eccTestPoint(psPool_t *pool, psEccPoint_t *P, pstm_int *prime,
         pstm_clear(&t1);
         return err;
     }
+    /* The coordinates are field elements: 0 <= x,y < p */
+    if (pstm_cmp(&P->x, prime) != PSTM_LT || pstm_cmp(&P->y, prime) != PSTM_LT)
+    {
+        psTraceCrypto("Supplied EC public point has a coordinate >= p\n");
+        pstm_clear(&t1);
+        pstm_clear(&t2);
+        return PS_LIMIT_FAIL;
+    }
     /*  Pre-allocated digit. TODO: haven't fully explored max paDlen */
     paDlen = (prime->used * 2 + 1) * sizeof(pstm_digit);
     if ((paD = psMalloc(pool, paDlen)) == NULL)
